@@ -628,8 +628,10 @@ class MyPyAstVisitor:
                                     types.add(type_)
                     elif hasattr(return_stmt.expr, "node") and getattr(return_stmt.expr.node, "is_self", False):
                         # The result type is an instance of the parent class
-                        expr_type = return_stmt.expr.node.type.type
-                        types.add(sds_types.NamedType(name=expr_type.name, qname=expr_type.fullname))
+                        # The type of "self" can also be a type variable ("self: T" or "self: Self"), which has no class
+                        expr_type = getattr(return_stmt.expr.node.type, "type", None)
+                        if expr_type is not None:
+                            types.add(sds_types.NamedType(name=expr_type.name, qname=expr_type.fullname))
                     else:
                         try:
                             type_ = mypy_expression_to_sds_type(return_stmt.expr)
